@@ -154,3 +154,340 @@ Proof.
       * intros x rest' E. apply (H0 x rest'). cbn [rev]. rewrite <- app_assoc. exact E.
 Qed.
 End StepDown.
+
+(* ---- small list facts ---- *)
+Lemma Forall2_nth_Q (l l' : list Q) : length l = length l' ->
+  (forall i, (i < length l)%nat -> nth i l 0 == nth i l' 0) -> Forall2 Qeq l l'.
+Proof.
+  revert l'. induction l as [|a l IH]; intros [|a' l'] Hl H; cbn in Hl; try discriminate; constructor.
+  - apply (H 0%nat). cbn. lia.
+  - apply IH; [lia|]. intros i Hi. apply (H (S i)). cbn. lia.
+Qed.
+Lemma count_if_map_compat {A} (f g : Q -> bool) (u v : A -> Q) (l : list A) :
+  (forall r, f (u r) = g (v r)) -> count_if f (map u l) = count_if g (map v l).
+Proof.
+  intros H. unfold count_if. induction l as [|a l IH]; cbn [map filter]; [reflexivity|].
+  rewrite H. destruct (g (v a)); cbn [length]; rewrite IH; reflexivity.
+Qed.
+Lemma Qle_bool_compat a b a' b' : a == a' -> b == b' -> Qle_bool a b = Qle_bool a' b'.
+Proof.
+  intros Ea Eb. destruct (Qle_bool a b) eqn:H1; destruct (Qle_bool a' b') eqn:H2; try reflexivity.
+  - apply Qle_bool_iff in H1. rewrite Ea, Eb in H1. apply Qle_bool_iff in H1. congruence.
+  - apply Qle_bool_iff in H2. rewrite <- Ea, <- Eb in H2. apply Qle_bool_iff in H2. congruence.
+Qed.
+Lemma qn_pos_S n : 0 < qn (S n).
+Proof. unfold qn, Qlt. cbn. lia. Qed.
+Lemma qn_nonneg n : 0 <= qn n.
+Proof. unfold qn, Qle. cbn. lia. Qed.
+Lemma div_S n m : (qn n + 1) / (qn m + 1) == qn (S n) / qn (S m).
+Proof. rewrite !qn_S. reflexivity. Qed.
+Lemma prefix_last (i0 : nat) t (u : list nat) w : u <> [] -> i0 :: t = rev u ++ w -> exists m, u = m ++ [i0].
+Proof.
+  intros Hu E. destruct (rev u) as [|h m'] eqn:Er.
+  - exfalso. apply Hu. rewrite <- (rev_involutive u), Er. reflexivity.
+  - cbn in E. inversion E; subst h. exists (rev m'). rewrite <- (rev_involutive u), Er. reflexivity.
+Qed.
+
+(* ================= min-P ================= *)
+Section MinP.
+Variable ts : list Q.
+Variable sims : list (list Q).
+Variable alts : list walt.
+Let k := length ts.
+Let reps := length sims.
+Let idx := seq 0 k.
+Let alt_of := fun c => nth c alts WBad.
+Let rows := all_rows ts sims.
+
+(* permutation p-value of row r for hypothesis c, as the code computes it from the simulated rows plus the observed one *)
+Definition FP (c : nat) (r : list Q) : Q :=
+  (qn (count_if (fun v => Qle_bool (tr (alt_of c) (nth c r 0)) (tr (alt_of c) v)) (col sims c))
+   + (if Qle_bool (tr (alt_of c) (nth c r 0)) (tr (alt_of c) (nth c ts 0)) then 1 else 0)) / (qn (length (col sims c)) + 1).
+Definition P (r : list Q) (l : nat) : Q := row_p (alt_of l) rows l r.
+
+Lemma perm_ps_map c : perm_ps (alt_of c) (nth c ts 0) (col sims c) = map (FP c) sims.
+Proof. unfold perm_ps, FP. unfold col at 3. rewrite map_map. reflexivity. Qed.
+
+Lemma col_rows c : col rows c = nth c ts 0 :: col sims c.
+Proof. reflexivity. Qed.
+Lemma col_length c : length (col sims c) = reps.
+Proof. unfold col. apply map_length. Qed.
+
+Lemma FP_row_p c r : FP c r == P r c.
+Proof.
+  unfold FP, P, row_p. rewrite col_rows, col_length. unfold rows, all_rows. cbn [length]. fold reps.
+  unfold count_if. cbn [filter].
+  destruct (Qle_bool (tr (alt_of c) (nth c r 0)) (tr (alt_of c) (nth c ts 0))); cbn [length].
+  - apply div_S.
+  - rewrite qn_S. rewrite Qplus_0_r. reflexivity.
+Qed.
+
+Definition rawl : list Q := map (fun c => raw_p (alt_of c) (nth c ts 0) (col sims c)) idx.
+Lemma raw_nth c : (c < k)%nat -> nth c rawl 0 == P ts c.
+Proof.
+  intros Hc. unfold rawl, idx. rewrite (nth_map_seq _ k c 0 Hc).
+  rewrite raw_p_is_rank_over_all_rows. unfold P, row_p. rewrite col_rows. unfold rows, all_rows. cbn [length].
+  rewrite col_length. reflexivity.
+Qed.
+
+Definition Aminp (c : nat) (rest : list nat) : Q :=
+  qn (count_if (fun x => Qle_bool x (P ts c)) (map (fun r => qminl (map (P r) (c :: rest))) rows)) / qn (length rows).
+
+Lemma stepdown_minp_sdg : forall L prev, stepdown_minp alt_of rows ts L prev = sdg Aminp L prev.
+Proof. induction L as [|c rest IH]; intros prev; cbn [stepdown_minp sdg]; [reflexivity|]. rewrite IH. reflexivity. Qed.
+
+Lemma Aminp_nonneg c rest : 0 <= Aminp c rest.
+Proof.
+  unfold Aminp, rows, all_rows. cbn [length]. apply Qle_shift_div_l; [apply qn_pos_S|]. rewrite Qmult_0_l. apply qn_nonneg.
+Qed.
+
+(* successive minima computed by the loop = minimum over the hypotheses tested so far *)
+Lemma gval_min i0 r : forall rest c, (exists m, c :: rest = m ++ [i0]) ->
+  gval (fun _ => Qmin) FP (FP i0) rest c r == qminl (map (fun l => FP l r) (c :: rest)).
+Proof.
+  induction rest as [|d rest IH]; intros c [m E]; cbn [gval].
+  - assert (Ec : c = i0).
+    { destruct m as [|a [|b m]]; cbn in E; inversion E; reflexivity. }
+    subst c. cbn. destruct (Qmin_spec (FP i0 r) (FP i0 r)) as [[_ ->]|[_ ->]]; reflexivity.
+  - destruct m as [|a m]; [cbn in E; inversion E; destruct rest; discriminate|].
+    cbn in E. inversion E; subst a.
+    cbn [map]. rewrite qminl_cons. apply Qmin_compat; [reflexivity|]. apply (IH d (ex_intro _ m H1)).
+Qed.
+End MinP.
+
+Lemma count_rows_head (R : Q) (g : list Q -> Q) (ts : list Q) (sims : list (list Q)) : Qle_bool (g ts) R = true ->
+  count_if (fun x => Qle_bool x R) (map g (ts :: sims)) = S (count_if (fun x => Qle_bool x R) (map g sims)).
+Proof. intros H. unfold count_if. cbn [map filter]. rewrite H. reflexivity. Qed.
+
+Lemma Forall2_map_seq (f g : nat -> Q) k : (forall c, (c < k)%nat -> f c == g c) -> Forall2 Qeq (map f (seq 0 k)) (map g (seq 0 k)).
+Proof.
+  intros H. apply Forall2_nth_Q; [rewrite !map_length; reflexivity|].
+  intros i Hi. rewrite map_length, seq_length in Hi. rewrite !(nth_map_seq _ k i 0 Hi). apply H. exact Hi.
+Qed.
+
+(* the testing order the code uses for min-P: hypotheses by decreasing raw p-value (stable) *)
+Definition minp_order (ts : list Q) (sims : list (list Q)) (alts : list walt) : list nat :=
+  sort_by (fun a b => Qle_bool b a) (fun c => nth c (rawl ts sims alts) 0) (seq 0 (length ts)).
+
+Theorem wy_minp_model_eq_spec ts sims alts adj raw :
+  westfall_young_table ts sims MinP alts = Ok (adj, raw) ->
+  let Lasc := rev (minp_order ts sims alts) in
+  Permutation Lasc (seq 0 (length ts)) /\
+  Forall2 Qeq adj (fst (wy_spec ts sims MinP alts Lasc)) /\
+  Forall2 Qeq raw (snd (wy_spec ts sims MinP alts Lasc)).
+Proof.
+  intros H Lasc. unfold westfall_young_table in H. cbv zeta in H.
+  destruct (negb (Nat.eqb (length alts) (length ts))); [discriminate|].
+  destruct (existsb is_bad alts); [discriminate|].
+  set (k := length ts) in *.
+  change (map (fun c => raw_p (nth c alts WBad) (nth c ts 0) (col sims c)) (seq 0 k)) with (rawl ts sims alts) in H.
+  change (sort_by (fun a b => Qle_bool b a) (fun c => nth c (rawl ts sims alts) 0) (seq 0 k)) with (minp_order ts sims alts) in H.
+  set (L := minp_order ts sims alts) in *.
+  assert (HpL : Permutation L (seq 0 k)) by apply sort_by_perm.
+  assert (Hp : Permutation Lasc (seq 0 k)) by (apply perm_trans with L; [apply Permutation_sym, Permutation_rev|exact HpL]).
+  assert (NdL : NoDup L) by (apply (Permutation_NoDup (Permutation_sym HpL)), seq_NoDup).
+  assert (Nd : NoDup Lasc) by (apply (Permutation_NoDup (Permutation_sym Hp)), seq_NoDup).
+  assert (HltL : forall i, In i L -> (i < k)%nat) by (intros i Hi; apply (Permutation_in _ HpL) in Hi; apply in_seq in Hi; lia).
+  assert (Hlt : forall i, In i Lasc -> (i < k)%nat) by (intros i Hi; apply (Permutation_in _ Hp) in Hi; apply in_seq in Hi; lia).
+  (* the table of permutation p-values is [cols] *)
+  assert (Eps : map (fun c => perm_ps (nth c alts WBad) (nth c ts 0) (col sims c)) (seq 0 k) = cols sims (FP ts sims alts) k).
+  { unfold cols. apply map_ext. intros c. apply (perm_ps_map ts sims alts c). }
+  rewrite Eps in H.
+  set (ps' := chain (fun _ : nat => Qmin) L (cols sims (FP ts sims alts) k)) in *.
+  set (adj0 := map (fun c => (qn (count_if (fun v => Qle_bool v (nth c (rawl ts sims alts) 0)) (nth c ps' [])) + 1) / (qn (length sims) + 1)) (seq 0 k)) in *.
+  inversion H; subst adj raw. clear H.
+  split; [exact Hp|]. unfold wy_spec. cbv zeta. cbn [fst snd]. fold k.
+  split.
+  2:{ apply Forall2_map_seq. intros c Hc. assert (X := raw_nth ts sims alts c Hc). unfold rawl in X. cbv zeta in X. fold k in X.
+      rewrite (nth_map_seq _ k c 0 Hc) in X. exact X. }
+  rewrite (stepdown_minp_sdg ts sims alts).
+  change (rev L) with Lasc.
+  destruct Lasc as [|c0 t0] eqn:ELasc.
+  { (* no hypotheses *)
+    assert (k = 0%nat) by (apply Permutation_length in Hp; rewrite seq_length in Hp; cbn in Hp; lia).
+    cbn [monotone_pass]. unfold adj0. rewrite H. cbn. constructor. }
+  assert (Ladj0 : length adj0 = k) by (unfold adj0; rewrite map_length, seq_length; reflexivity).
+  destruct (monotone_pass_closed_form adj0 c0 t0 Nd) as [Hlen Hmv].
+  { intros i Hi. rewrite Ladj0. apply Hlt. exact Hi. }
+  (* L is not empty either *)
+  destruct L as [|i0 tL] eqn:EL.
+  { exfalso. subst Lasc. cbn in ELasc. discriminate. }
+  (* (i): every adjusted value before the monotone pass is the textbook count *)
+  assert (Hadj0 : forall pre x rest, c0 :: t0 = pre ++ x :: rest -> nth x adj0 0 == Aminp ts sims alts x rest).
+  { intros pre x rest E.
+    assert (Hx : (x < k)%nat) by (apply Hlt; rewrite E; apply in_or_app; right; left; reflexivity).
+    unfold adj0. rewrite (nth_map_seq _ k x 0 Hx).
+    assert (EL' : i0 :: tL = rev rest ++ x :: rev pre).
+    { rewrite <- (rev_involutive (i0 :: tL)). fold Lasc. rewrite ELasc, E, rev_app_distr. cbn [rev]. rewrite <- app_assoc. reflexivity. }
+    unfold ps'. rewrite (chain_closed_form (fun _ => Qmin) sims (FP ts sims alts) k i0 tL NdL HltL (rev rest) x (rev pre) EL').
+    rewrite rev_involutive.
+    assert (Hm : exists m, x :: rest = m ++ [i0]).
+    { apply (prefix_last i0 tL (x :: rest) (rev pre)); [discriminate|]. cbn [rev]. rewrite <- app_assoc. exact EL'. }
+    unfold Aminp. change (all_rows ts sims) with (ts :: sims). cbn [length].
+    set (R := P ts sims alts ts x).
+    set (g := fun r : list Q => qminl (map (P ts sims alts r) (x :: rest))).
+    assert (Hhead : Qle_bool (g ts) R = true).
+    { apply Qle_bool_iff. unfold g. cbn [map]. apply qminl_le_head. }
+    rewrite (count_rows_head R g ts sims Hhead).
+    rewrite (count_if_map_compat (fun v => Qle_bool v (nth x (rawl ts sims alts) 0)) (fun v => Qle_bool v R)
+               (gval (fun _ => Qmin) (FP ts sims alts) (FP ts sims alts i0) rest x) g sims).
+    - apply div_S.
+    - intros r. apply Qle_bool_compat; [|apply (raw_nth ts sims alts x Hx)].
+      unfold g. rewrite (gval_min ts sims alts i0 r rest x Hm). apply qminl_compat.
+      clear. induction (x :: rest) as [|l ls IH]; cbn [map]; constructor; [apply FP_row_p|exact IH]. }
+  apply Forall2_nth_Q; [rewrite Hlen, Ladj0, map_length, seq_length; reflexivity|].
+  intros c Hc. rewrite Hlen, Ladj0 in Hc.
+  rewrite (nth_map_seq _ k c 0 Hc).
+  assert (Hin : In c (c0 :: t0)) by (apply (Permutation_in _ (Permutation_sym Hp)); apply in_seq; lia).
+  destruct (in_split _ _ Hin) as [pre [rest E]].
+  rewrite (Hmv pre c rest E). rewrite E.
+  assert (Hnp : ~ In c pre).
+  { rewrite E in Nd. apply NoDup_remove_2 in Nd. intros Hc'. apply Nd. apply in_or_app. left. exact Hc'. }
+  rewrite (sdg_at (Aminp ts sims alts) pre c rest 0 Hnp).
+  symmetry. apply sval_mval.
+  - rewrite rev_involutive. rewrite <- E. exact Hadj0.
+  - rewrite rev_involutive. rewrite <- E. intros x rest' Ex. inversion Ex; subst x rest'.
+    assert (E0 := Hadj0 [] c0 t0 eq_refl).
+    assert (Hn := Aminp_nonneg ts sims alts c0 t0).
+    destruct (Qmax_spec (Aminp ts sims alts c0 t0) 0) as [[H1 ->]|[H1 ->]];
+    destruct (Qmax_spec (Aminp ts sims alts c0 t0) (nth c0 adj0 0)) as [[H2 ->]|[H2 ->]]; lra.
+Qed.
+
+(* the order is sorted: raw p-values are non-increasing along minp_order, i.e. non-decreasing along Lasc *)
+Theorem minp_order_sorted ts sims alts :
+  StronglySorted (fun i j => nth j (rawl ts sims alts) 0 <= nth i (rawl ts sims alts) 0) (minp_order ts sims alts).
+Proof.
+  unfold minp_order.
+  assert (S := sort_by_sorted (fun a b => Qle_bool b a) (fun c => nth c (rawl ts sims alts) 0)
+    (fun a b => match Qle_bool_total b a with or_introl h => or_introl h | or_intror h => or_intror h end)
+    (fun a b c h1 h2 => Qle_bool_trans c b a h2 h1) (seq 0 (length ts))).
+  eapply StronglySorted_ind with (P := fun l => StronglySorted _ l); [constructor| |exact S].
+  intros a l Hs IH Hall. constructor; [exact IH|].
+  apply Forall_forall. intros x Hx. rewrite Forall_forall in Hall. specialize (Hall x Hx). unfold kle in Hall.
+  apply Qle_bool_iff. exact Hall.
+Qed.
+
+(* ================= max-T ================= *)
+Section MaxT.
+Variable ts : list Q.
+Variable sims : list (list Q).
+Variable alts : list walt.
+Let k := length ts.
+Let alt_of := fun c => nth c alts WBad.
+Let rows := all_rows ts sims.
+
+Definition FT (c : nat) (r : list Q) : Q := nth c r 0.
+Definition opT (i : nat) (x p : Q) : Q := Qmax (tr (alt_of i) x) p.
+Definition T (r : list Q) (l : nat) : Q := tr (alt_of l) (nth l r 0).
+
+Definition Amaxt (c : nat) (rest : list nat) : Q :=
+  qn (count_if (fun x => Qle_bool (T ts c) x) (map (fun r => qmaxl (map (T r) (c :: rest))) rows)) / qn (length rows).
+
+Lemma stepdown_maxt_sdg : forall L prev, stepdown_maxt alt_of rows ts L prev = sdg Amaxt L prev.
+Proof. induction L as [|c rest IH]; intros prev; cbn [stepdown_maxt sdg]; [reflexivity|]. rewrite IH. reflexivity. Qed.
+
+Lemma Amaxt_nonneg c rest : 0 <= Amaxt c rest.
+Proof.
+  unfold Amaxt, rows, all_rows. cbn [length]. apply Qle_shift_div_l; [apply qn_pos_S|]. rewrite Qmult_0_l. apply qn_nonneg.
+Qed.
+
+Lemma tr_ge a x : x <= tr a x.
+Proof. destruct a; cbn [tr]; try apply Qle_refl. apply Qle_Qabs. Qed.
+
+Lemma gval_max i0 r : forall rest c, (exists m, c :: rest = m ++ [i0]) ->
+  gval opT FT (FT i0) rest c r == qmaxl (map (T r) (c :: rest)).
+Proof.
+  induction rest as [|d rest IH]; intros c [m E]; cbn [gval].
+  - assert (Ec : c = i0).
+    { destruct m as [|a [|b m]]; cbn in E; inversion E; reflexivity. }
+    subst c. cbn. unfold opT, T, FT. assert (H := tr_ge (alt_of i0) (nth i0 r 0)).
+    destruct (Qmax_spec (tr (alt_of i0) (nth i0 r 0)) (nth i0 r 0)) as [[H1 ->]|[H1 ->]]; lra.
+  - destruct m as [|a m]; [cbn in E; inversion E; destruct rest; discriminate|].
+    cbn in E. inversion E; subst a.
+    cbn [map]. rewrite qmaxl_cons. unfold opT at 1. apply Qmax_compat'; [reflexivity|]. apply (IH d (ex_intro _ m H1)).
+Qed.
+End MaxT.
+
+Definition maxt_order (ts : list Q) (alts : list walt) : list nat :=
+  sort_by Qle_bool (fun c => tr (last alts WBad) (nth c ts 0)) (seq 0 (length ts)).
+
+Lemma count_rows_head_ge (S : Q) (g : list Q -> Q) (ts : list Q) (sims : list (list Q)) : Qle_bool S (g ts) = true ->
+  count_if (fun x => Qle_bool S x) (map g (ts :: sims)) = Datatypes.S (count_if (fun x => Qle_bool S x) (map g sims)).
+Proof. intros H. unfold count_if. cbn [map filter]. rewrite H. reflexivity. Qed.
+
+Theorem wy_maxt_model_eq_spec ts sims alts adj raw :
+  westfall_young_table ts sims MaxT alts = Ok (adj, raw) ->
+  let Ldesc := rev (maxt_order ts alts) in
+  Permutation Ldesc (seq 0 (length ts)) /\
+  Forall2 Qeq adj (fst (wy_spec ts sims MaxT alts Ldesc)) /\
+  Forall2 Qeq raw (snd (wy_spec ts sims MaxT alts Ldesc)).
+Proof.
+  intros H Lasc. unfold westfall_young_table in H. cbv zeta in H.
+  destruct (negb (Nat.eqb (length alts) (length ts))); [discriminate|].
+  destruct (existsb is_bad alts); [discriminate|].
+  set (k := length ts) in *.
+  change (sort_by Qle_bool (fun c => tr (last alts WBad) (nth c ts 0)) (seq 0 k)) with (maxt_order ts alts) in H.
+  set (L := maxt_order ts alts) in *.
+  assert (HpL : Permutation L (seq 0 k)) by apply sort_by_perm.
+  assert (Hp : Permutation Lasc (seq 0 k)) by (apply perm_trans with L; [apply Permutation_sym, Permutation_rev|exact HpL]).
+  assert (NdL : NoDup L) by (apply (Permutation_NoDup (Permutation_sym HpL)), seq_NoDup).
+  assert (Nd : NoDup Lasc) by (apply (Permutation_NoDup (Permutation_sym Hp)), seq_NoDup).
+  assert (HltL : forall i, In i L -> (i < k)%nat) by (intros i Hi; apply (Permutation_in _ HpL) in Hi; apply in_seq in Hi; lia).
+  assert (Hlt : forall i, In i Lasc -> (i < k)%nat) by (intros i Hi; apply (Permutation_in _ Hp) in Hi; apply in_seq in Hi; lia).
+  change (map (fun c => col sims c) (seq 0 k)) with (cols sims FT k) in H.
+  change (fun (i : nat) (x p : Q) => Qmax (tr (nth i alts WBad) x) p) with (opT alts) in H.
+  set (tv' := chain (opT alts) L (cols sims FT k)) in *.
+  set (adj0 := map (fun c => (qn (count_if (fun v => Qle_bool (tr (nth c alts WBad) (nth c ts 0)) v) (nth c tv' [])) + 1) / (qn (length sims) + 1)) (seq 0 k)) in *.
+  inversion H; subst adj raw. clear H.
+  split; [exact Hp|]. unfold wy_spec. cbv zeta. cbn [fst snd]. fold k.
+  split.
+  2:{ apply Forall2_map_seq. intros c Hc. assert (X := raw_nth ts sims alts c Hc). unfold rawl in X. cbv zeta in X. fold k in X.
+      rewrite (nth_map_seq _ k c 0 Hc) in X. exact X. }
+  rewrite (stepdown_maxt_sdg ts sims alts).
+  change (rev L) with Lasc.
+  destruct Lasc as [|c0 t0] eqn:ELasc.
+  { assert (k = 0%nat) by (apply Permutation_length in Hp; rewrite seq_length in Hp; cbn in Hp; lia).
+    cbn [monotone_pass]. unfold adj0. rewrite H. cbn. constructor. }
+  assert (Ladj0 : length adj0 = k) by (unfold adj0; rewrite map_length, seq_length; reflexivity).
+  destruct (monotone_pass_closed_form adj0 c0 t0 Nd) as [Hlen Hmv].
+  { intros i Hi. rewrite Ladj0. apply Hlt. exact Hi. }
+  destruct L as [|i0 tL] eqn:EL.
+  { exfalso. subst Lasc. cbn in ELasc. discriminate. }
+  assert (Hadj0 : forall pre x rest, c0 :: t0 = pre ++ x :: rest -> nth x adj0 0 == Amaxt ts sims alts x rest).
+  { intros pre x rest E.
+    assert (Hx : (x < k)%nat) by (apply Hlt; rewrite E; apply in_or_app; right; left; reflexivity).
+    unfold adj0. rewrite (nth_map_seq _ k x 0 Hx).
+    assert (EL' : i0 :: tL = rev rest ++ x :: rev pre).
+    { rewrite <- (rev_involutive (i0 :: tL)). fold Lasc. rewrite ELasc, E, rev_app_distr. cbn [rev]. rewrite <- app_assoc. reflexivity. }
+    unfold tv'. rewrite (chain_closed_form (opT alts) sims FT k i0 tL NdL HltL (rev rest) x (rev pre) EL').
+    rewrite rev_involutive.
+    assert (Hm : exists m, x :: rest = m ++ [i0]).
+    { apply (prefix_last i0 tL (x :: rest) (rev pre)); [discriminate|]. cbn [rev]. rewrite <- app_assoc. exact EL'. }
+    unfold Amaxt. change (all_rows ts sims) with (ts :: sims). cbn [length].
+    set (S := T alts ts x).
+    set (g := fun r : list Q => qmaxl (map (T alts r) (x :: rest))).
+    assert (Hhead : Qle_bool S (g ts) = true).
+    { apply Qle_bool_iff. unfold g. cbn [map]. apply qmaxl_ge_head. }
+    rewrite (count_rows_head_ge S g ts sims Hhead).
+    rewrite (count_if_map_compat (fun v => Qle_bool (tr (nth x alts WBad) (nth x ts 0)) v) (fun v => Qle_bool S v)
+               (gval (opT alts) FT (FT i0) rest x) g sims).
+    - apply div_S.
+    - intros r. apply Qle_bool_compat; [reflexivity|].
+      unfold g. apply (gval_max alts i0 r rest x Hm). }
+  apply Forall2_nth_Q; [rewrite Hlen, Ladj0, map_length, seq_length; reflexivity|].
+  intros c Hc. rewrite Hlen, Ladj0 in Hc.
+  rewrite (nth_map_seq _ k c 0 Hc).
+  assert (Hin : In c (c0 :: t0)) by (apply (Permutation_in _ (Permutation_sym Hp)); apply in_seq; lia).
+  destruct (in_split _ _ Hin) as [pre [rest E]].
+  rewrite (Hmv pre c rest E). rewrite E.
+  assert (Hnp : ~ In c pre).
+  { rewrite E in Nd. apply NoDup_remove_2 in Nd. intros Hc'. apply Nd. apply in_or_app. left. exact Hc'. }
+  rewrite (sdg_at (Amaxt ts sims alts) pre c rest 0 Hnp).
+  symmetry. apply sval_mval.
+  - rewrite rev_involutive. rewrite <- E. exact Hadj0.
+  - rewrite rev_involutive. rewrite <- E. intros x rest' Ex. inversion Ex; subst x rest'.
+    assert (E0 := Hadj0 [] c0 t0 eq_refl).
+    assert (Hn := Amaxt_nonneg ts sims alts c0 t0).
+    destruct (Qmax_spec (Amaxt ts sims alts c0 t0) 0) as [[H1 ->]|[H1 ->]];
+    destruct (Qmax_spec (Amaxt ts sims alts c0 t0) (nth c0 adj0 0)) as [[H2 ->]|[H2 ->]]; lra.
+Qed.
